@@ -10,15 +10,19 @@ META = {
                  "PartialEq and of the exact Hasher write sequence of Value's Hash; model tied to value.rs by a differential run",
     "level_text": "proof about model + differential correspondence + relational oracle on the implementation",
     "level_note": "Proved for all well-formed values (map keys unique = IndexMap invariant), any depth: veq reflexive, symmetric, transitive; "
-                  "veq a b -> identical Hasher write sequences (hence equal hashes under every Hasher). Modelled: f64 == and is_nan at bit "
-                  "level (NaN = exponent 2047 and non-zero mantissa; non-NaN floats are == iff same bits or both zeros) — this bit-level "
-                  "reading of IEEE equality is trusted and exercised on special floats by the differential run; strings as UTF-8 byte lists. "
+                  "veq a b -> identical Hasher write sequences (hence equal hashes under every Hasher). f64 == and is_nan are bit-level predicates in "
+                  "the model, proved equal to Flocq's IEEE-754 binary64 is_nan / Bcompare for all 2^64 patterns (those two theorems inherit the "
+                  "standard Reals axioms); strings as UTF-8 byte lists. "
                   "Tested: == matrix and recorded write sequence agree with the model; DefaultHasher and FxHasher values equal for == pairs.",
     "design_ref": "DESIGN.md §7 C40",
 }
 
 IMPORTS = ("From Coq Require Import String ZArith List.\nImport ListNotations.\n"
            "From VP Require Import Value.Model Value.Run.\nOpen Scope Z_scope.\n")
+
+# standard-library axioms that Flocq's binary64 construction (b64_of_bits) brings into the two float-tie theorems
+FLOCQ_AXIOMS = ("ClassicalDedekindReals.sig_not_dec", "ClassicalDedekindReals.sig_forall_dec",
+                "FunctionalExtensionality.functional_extensionality_dep", "Classical_Prop.classic")
 
 NAN = 0x7ff8000000000000
 FLOATS = [0, 1 << 63, NAN, 0x7ff8000000000001, 0xfff8000000000000, 0x7ff0000000000001, 0xffffffffffffffff,
@@ -135,9 +139,25 @@ def mutate(rng, v):
     return gen_leaf(rng)
 
 
+def gen_rich(rng, depth):
+    """A value in which permuting / twinning changes the text: a map with >= 2 entries containing special floats."""
+    keys = rng.shuffle(KEYS)[:rng.range(2, 4)]
+    es = []
+    for k in keys:
+        c = rng.below(4)
+        if c == 0:
+            es.append([k, {"f": str(rng.choice(FLOATS[:7]))}])
+        elif c == 1 and depth > 1:
+            es.append([k, gen_rich(rng, depth - 1)])
+        else:
+            es.append([k, gen_value(rng, depth - 1)])
+    v = {"m": es}
+    return {"a": [gen_leaf(rng), v]} if rng.chance(1, 5) else v
+
+
 def gen_family(rng):
     depth = rng.choice([0, 1, 2, 2, 3, 3])
-    base = gen_value(rng, depth)
+    base = gen_rich(rng, depth) if depth >= 1 and rng.chance(3, 4) else gen_value(rng, depth)
     fam = [base]
     kinds = []
     for _ in range(rng.range(2, 5)):
@@ -250,12 +270,16 @@ def build(run):
     if ok:
         a = coqtools.audit("C40.v")
         run.axioms |= a["axioms"]
-        run.oblige("audit C40.v: %d Check pins, %d/%d Print Assumptions, no axioms" % (a["n_pins"], a["n_print"], a["n_expected"]),
+        run.oblige("audit C40.v (refl/sym/trans/hash): %d Check pins, %d/%d Print Assumptions, no axioms" % (a["n_pins"], a["n_print"], a["n_expected"]),
                    a["ok"], a["log"] + str(a["bad_axioms"]))
-        run.extra["theorems_audited"] = a["n_print"]
+        f = coqtools.audit("C40_float.v", allow_axioms=FLOCQ_AXIOMS)
+        run.axioms |= f["axioms"]
+        run.oblige("audit C40_float.v (model floats = Flocq binary64): %d Check pins, %d/%d Print Assumptions, only the allowed Reals axioms" % (f["n_pins"], f["n_print"], f["n_expected"]),
+                   f["ok"], f["log"] + str(f["bad_axioms"]))
+        run.extra["theorems_audited"] = a["n_print"] + f["n_print"]
     else:
         coqtools.make(["theories/Value/Run.vo"])
-    run.checker_cmd = "coqc 8.16.1 (full .vo) theories/Value/Props.v; coqc coq/audit/C40.v"
+    run.checker_cmd = "coqc 8.16.1 (full .vo) theories/Value/Props.v; coqc coq/audit/C40.v; coqc coq/audit/C40_float.v"
     okb, bindir, blog = harness.build("vp-value")
     if not okb:
         run.tie_broken("harness build vp-value", blog[-3000:])
@@ -270,7 +294,7 @@ def check(run):
                 "that are == and two that are not; distinct = distinct family")
     run.trusted += ["Coq 8.16.1 kernel + vm_compute",
                     "hand-written model coq/theories/Value/Model.v tied by differential run (full == matrix of each family, exact sequence of Hasher::write_* calls of each value)",
-                    "bit-level reading of f64::is_nan and IEEE == (Model.v is_nan / ieee_eq)",
+                    "f64::is_nan / == are Flocq's binary64 is_nan / Bcompare = Some Eq (proved equal to the model's bit-level predicates: C40_float_nan_is_ieee, C40_float_eq_is_ieee; those two theorems only use the Reals axioms listed below)",
                     "Rust harness harness/crates/value (recording Hasher, DefaultHasher, FxHasher), vp-common tagged JSON, Python driver checks/C40.py",
                     "std: Hash for i64/u64/usize/bool/str/Discriminant call the write_* methods the recording hasher sees (write_str = write + write_u8(0xff))"]
     run.assumptions += ["map keys are unique (IndexMap invariant; the harness builds maps by insert)", "array / map lengths fit usize"]
